@@ -30,6 +30,7 @@ cat > $D/meta.json <<M
  "seed": "$NAME",
  "breaks_property": "$PROP",
  "origin": "independent sub-agent given only the property text and a scratch worktree",
+ "base_commit": "$(git -C $WT rev-parse --short HEAD)",
  "tests_with_change": "$T",
  "demo_exit_with_change": $DW,
  "demo_exit_without_change": $DO,
